@@ -5,3 +5,4 @@ from harness.props.poolprops import PoolProp
 class P(PoolProp):
     id = "C03"
     focus = "C03"
+    rule = ("Histories of 2-3 calls (ordered / unordered / empty) on one pool, factory pools with quota 1-3 in 70 % of the cases, all policies incl. ones that starve the replace thread or the retiring workers.  VIOLATION when some call's result is wrong, a run hangs, or a result chunk / a stop token of the replace thread is left in a queue when the pool has been left.")
